@@ -32,6 +32,7 @@ STRENGTHENED = {
     'C07-5': 'folded continuation lines that hold white space only, inside the header block',
     'C07-4': 'size-based rollover falling between the request record and the response record of one exchange; the recorder observer no longer depends on the signature of write_record',
     'C11-6': 'links made of thousands of repetitions of a short scheme-like prefix (feed:, view-source:, ../, //) in the join pairs',
+    'C09-8': 'MLSD time-vals with fractions of 1 to 12 digits (RFC 3659 allows any number) among the listing lines',
     'C15-8': 'every PathNamer of the C15 cases is now built by the real FileWriterSetupTask from --restrict-file-names / -nd / -x values (the option translation is inside the comparison; it replaced a static look at the os_type assignment): now a concrete input',
     'C04-3': 'the scripted connection can be re-connected by the code (the scripted server goes on with its script) and a tenth of the follow-up exchanges find their persistent connection dropped: now a concrete input',
     'C09-4': 'srcset values with empty candidates (trailing / doubled commas, empty, white space only) among the HTML parts: now a concrete input',
